@@ -851,6 +851,189 @@ def post_table(modules):
     return rows, sorted(accessors), sorted(props), sorted(param_mutators)
 
 
+# ------------------------------------------------------------------ memoize / clear_cache / clear_mask_caches, statement by statement
+# glue/core/decorators.py: `memoize` (the statements before `def wrapper`, the whole body of `wrapper`, the statements after it), `clear_cache`,
+# and glue/core/subset.py: `clear_mask_caches`, translated into the IR `mstmt` of Gen_memo.v whose semantics (coq/C05/Memo.v) is a heap of dict
+# OBJECTS: the closure variable `memo` holds a reference, `wrapper.__memoize_cache` holds a reference, `{}` allocates a new object, `d.clear()`
+# empties the object it is applied to.  Variables: 0 = memo (the closure cell shared by memoize and wrapper), 1 = key, 2 = result (locals of wrapper).
+# Fail closed: any statement / expression outside the fragment below aborts the generation; an assignment to the closure variable inside wrapper
+# is translated (it needs `nonlocal memo`, otherwise Python makes it a local and the translation aborts), and so is a size test `len(d) >= N`.
+EXC = {'TypeError': 1, 'KeyError': 2, 'AttributeError': 3}
+MVARS = {'memo': 0, 'key': 1, 'result': 2}
+CACHE_ATTR = '__memoize_cache'
+
+
+class MemoTranslator:
+    def __init__(self, consts, ctx, nonlocals=(), inner=None, param=None):
+        self.consts, self.ctx, self.nonlocals, self.inner, self.param = consts, ctx, set(nonlocals), inner, param
+
+    def fail(self, node, why):
+        raise Unsupported('memoize translation (%s, line %s): %s: %s' % (self.ctx, getattr(node, 'lineno', '?'), why, src(node)[:120]))
+
+    def intconst(self, node):
+        if isinstance(node, ast.Constant) and isinstance(node.value, int) and not isinstance(node.value, bool) and node.value >= 0:
+            return node.value
+        if isinstance(node, ast.Name) and node.id in self.consts:
+            return self.consts[node.id]
+        self.fail(node, 'not a non-negative integer constant')
+
+    def expr(self, e):
+        if isinstance(e, ast.Name):
+            if e.id in MVARS and self.ctx != 'clear_cache':
+                return 'MVar %d' % MVARS[e.id]
+            self.fail(e, 'name outside the fragment')
+        if isinstance(e, ast.Dict) and not e.keys:
+            return 'MNewDict'
+        if isinstance(e, ast.Call) and isinstance(e.func, ast.Name) and e.func.id == 'dict' and not e.args and not e.keywords:
+            return 'MNewDict'
+        if isinstance(e, ast.Call) and src(e).replace(' ', '') == '_make_key(args,kwargs)' and self.ctx == 'wrapper':
+            return 'MMakeKey'
+        if isinstance(e, ast.Call) and src(e).replace(' ', '') == 'func(*args,**kwargs)' and self.ctx == 'wrapper':
+            return 'MCallFunc'
+        if isinstance(e, ast.Subscript) and isinstance(e.ctx, ast.Load) and not isinstance(e.slice, ast.Slice):
+            return 'MGetItem (%s) (%s)' % (self.expr(e.value), self.expr(e.slice))
+        if isinstance(e, ast.Attribute) and e.attr == CACHE_ATTR and self.ctx == 'clear_cache' and isinstance(e.value, ast.Name) and e.value.id == self.param:
+            return 'MFuncCache'
+        if isinstance(e, ast.Compare) and len(e.ops) == 1 and isinstance(e.left, ast.Call) and isinstance(e.left.func, ast.Name) and \
+                e.left.func.id == 'len' and len(e.left.args) == 1 and not e.left.keywords:
+            d = self.expr(e.left.args[0])
+            n = self.intconst(e.comparators[0])
+            if isinstance(e.ops[0], ast.GtE):
+                return 'MLenGe (%s) %d' % (d, n)
+            if isinstance(e.ops[0], ast.Gt):
+                return 'MLenGe (%s) %d' % (d, n + 1)
+            self.fail(e, 'comparison operator')
+        self.fail(e, 'expression outside the fragment')
+
+    def block(self, stmts):
+        out = []
+        for st in stmts:
+            t = self.stmt(st)
+            if t is not None:
+                out.append(t)
+        return '[' + '; '.join(out) + ']'
+
+    def stmt(self, st):
+        if isinstance(st, ast.Expr) and isinstance(st.value, ast.Constant) and isinstance(st.value.value, str):
+            return None
+        if isinstance(st, ast.Pass):
+            return 'MSPass'
+        if isinstance(st, ast.Nonlocal):
+            if self.ctx != 'wrapper' or any(n != 'memo' for n in st.names):
+                self.fail(st, 'nonlocal of something else than the memo')
+            return None          # recorded beforehand (self.nonlocals)
+        if isinstance(st, ast.Assign) and len(st.targets) == 1:
+            t = st.targets[0]
+            if isinstance(t, ast.Name):
+                if t.id == 'memo':
+                    if self.ctx == 'wrapper' and 'memo' not in self.nonlocals:
+                        self.fail(st, 'assignment makes `memo` a local of wrapper (no nonlocal)')
+                    if self.ctx == 'clear_cache':
+                        self.fail(st, 'assignment')
+                    return 'MSAssign 0 (%s)' % self.expr(st.value)
+                if t.id in ('key', 'result') and self.ctx == 'wrapper':
+                    return 'MSAssign %d (%s)' % (MVARS[t.id], self.expr(st.value))
+                self.fail(st, 'assignment to a name outside the fragment')
+            if isinstance(t, ast.Subscript) and not isinstance(t.slice, ast.Slice):
+                return 'MSSetItem (%s) (%s) (%s)' % (self.expr(t.value), self.expr(t.slice), self.expr(st.value))
+            if isinstance(t, ast.Attribute) and t.attr == CACHE_ATTR and self.ctx == 'memoize' and isinstance(t.value, ast.Name) and t.value.id == self.inner:
+                return 'MSSetCache (%s)' % self.expr(st.value)
+            self.fail(st, 'assignment target')
+        if isinstance(st, ast.Return) and st.value is not None and self.ctx == 'wrapper':
+            return 'MSReturn (%s)' % self.expr(st.value)
+        if isinstance(st, ast.Try) and not st.orelse and not st.finalbody and st.handlers:
+            hs = []
+            for h in st.handlers:
+                if h.name is not None or not isinstance(h.type, ast.Name) or h.type.id not in EXC:
+                    self.fail(h, 'handler')
+                hs.append('MSHandler %d %s' % (EXC[h.type.id], self.block(h.body)))
+            return 'MSTry %s [%s]' % (self.block(st.body), '; '.join(hs))
+        if isinstance(st, ast.If):
+            return 'MSIf (%s) %s %s' % (self.expr(st.test), self.block(st.body), self.block(st.orelse))
+        if isinstance(st, ast.Expr) and isinstance(st.value, ast.Call) and isinstance(st.value.func, ast.Attribute) and st.value.func.attr == 'clear' and \
+                not st.value.args and not st.value.keywords:
+            return 'MSClear (%s)' % self.expr(st.value.func.value)
+        self.fail(st, 'statement outside the fragment')
+
+
+CLEAR_MASK_CACHES_TEMPLATE = """
+def clear_mask_caches():
+    classes = [SubsetState]
+    while classes:
+        cls = classes.pop()
+        clear_cache(cls.__dict__.get('to_mask'))
+        classes.extend(cls.__subclasses__())
+"""
+
+
+def memoize_programs(modules):
+    tree = modules.get('glue/core/decorators.py')
+    if tree is None:
+        raise Unsupported('glue/core/decorators.py not found')
+    consts = {}
+    for st in tree.body:
+        if isinstance(st, ast.Assign) and len(st.targets) == 1 and isinstance(st.targets[0], ast.Name) and isinstance(st.value, ast.Constant) and \
+                isinstance(st.value.value, int) and not isinstance(st.value.value, bool) and st.value.value >= 0:
+            consts[st.targets[0].id] = st.value.value
+    fns = {f.name: f for f in tree.body if isinstance(f, ast.FunctionDef)}
+    mz, cc = fns.get('memoize'), fns.get('clear_cache')
+    if mz is None or cc is None:
+        raise Unsupported('memoize / clear_cache not found in glue/core/decorators.py')
+    if [a.arg for a in mz.args.args] != ['func'] or mz.args.vararg or mz.args.kwarg or mz.decorator_list:
+        raise Unsupported('memoize: signature')
+    inner = [k for k, st in enumerate(mz.body) if isinstance(st, ast.FunctionDef)]
+    if len(inner) != 1:
+        raise Unsupported('memoize: expected exactly one nested function')
+    k = inner[0]
+    w = mz.body[k]
+    a = w.args
+    if a.args or a.kwonlyargs or a.posonlyargs or a.defaults or not a.vararg or a.vararg.arg != 'args' or not a.kwarg or a.kwarg.arg != 'kwargs':
+        raise Unsupported('memoize.%s: signature is not (*args, **kwargs)' % w.name)
+    if [src(d).replace(' ', '') for d in w.decorator_list] != ['wraps(func)']:
+        raise Unsupported('memoize.%s: decorators' % w.name)
+    last = mz.body[-1]
+    if not (isinstance(last, ast.Return) and isinstance(last.value, ast.Name) and last.value.id == w.name):
+        raise Unsupported('memoize does not end in `return %s`' % w.name)
+    nonlocals = [n for st in ast.walk(w) if isinstance(st, ast.Nonlocal) for n in st.names]
+    if any(isinstance(n, (ast.Global, ast.Lambda, ast.FunctionDef, ast.ClassDef, ast.ListComp, ast.DictComp, ast.GeneratorExp)) for st in w.body for n in ast.walk(st)):
+        raise Unsupported('memoize.%s: nested scope / global' % w.name)
+    pre = MemoTranslator(consts, 'memoize', inner=w.name).block(mz.body[:k])
+    post = MemoTranslator(consts, 'memoize', inner=w.name).block(mz.body[k + 1:-1])
+    body = MemoTranslator(consts, 'wrapper', nonlocals=nonlocals).block(w.body)
+    if [x.arg for x in cc.args.args] != ['func'] or cc.args.vararg or cc.args.kwarg or cc.decorator_list:
+        raise Unsupported('clear_cache: signature')
+    clear = MemoTranslator(consts, 'clear_cache', param='func').block(cc.body)
+    # the handle may be touched nowhere else
+    n_attr = 0
+    for rel, t in modules.items():
+        for n in ast.walk(t):
+            if (isinstance(n, ast.Attribute) and n.attr == CACHE_ATTR) or (isinstance(n, ast.Constant) and isinstance(n.value, str) and CACHE_ATTR in n.value
+                                                                           and rel != 'glue/core/decorators.py'):
+                n_attr += 1
+                if rel != 'glue/core/decorators.py':
+                    raise Unsupported('%s is used outside glue/core/decorators.py (%s)' % (CACHE_ATTR, rel))
+    if n_attr != 2:
+        raise Unsupported('%s: expected one binding in memoize and one read in clear_cache, found %d uses' % (CACHE_ATTR, n_attr))
+    # clear_mask_caches: the work-list walk over the class tree, clear_cache on every class's own to_mask -- exact form or 0
+    walk = 0
+    st_tree = modules.get('glue/core/subset.py')
+    if st_tree is not None:
+        cm = [f for f in st_tree.body if isinstance(f, ast.FunctionDef) and f.name == 'clear_mask_caches']
+        if len(cm) == 1:
+            body_ = [st for st in cm[0].body if not (isinstance(st, ast.Expr) and isinstance(st.value, ast.Constant) and isinstance(st.value.value, str))]
+            tmpl = ast.parse(CLEAR_MASK_CACHES_TEMPLATE).body[0]
+            if (ast.dump(ast.Module(body=body_, type_ignores=[])) == ast.dump(ast.Module(body=tmpl.body, type_ignores=[])) and
+                    ast.dump(cm[0].args) == ast.dump(tmpl.args) and not cm[0].decorator_list):
+                # clear_cache must be THE clear_cache of decorators.py in that module
+                imp = [n for n in st_tree.body if isinstance(n, ast.ImportFrom) and n.module == 'glue.core.decorators' and
+                       any(al.name == 'clear_cache' and al.asname is None for al in n.names)]
+                redefined = [n for n in st_tree.body if isinstance(n, (ast.FunctionDef, ast.ClassDef)) and n.name == 'clear_cache']
+                if imp and not redefined:
+                    walk = 1
+    return pre, body, post, clear, walk
+
+
+
 def ir_coq(ss, vars_):
     out = []
     for s in ss:
@@ -1010,6 +1193,37 @@ def generate(out_path):
     t.append('Definition post_fn_histogram : nat := %d.' % (hist[0] if len(hist) == 1 else 999))
     t.append('Definition post_fn_profile : nat := %d.' % (prof[0] if len(prof) == 1 else 999))
     t.append('Definition post_fn_memoize : nat := %d.' % (memo[0] if len(memo) == 1 else 999))
+    pre, wbody, post, clear, walk = memoize_programs(modules)
+    t.append('')
+    t.append('(* ---- glue/core/decorators.py memoize / clear_cache and glue/core/subset.py clear_mask_caches, statement by statement (semantics: coq/C05/Memo.v,')
+    t.append('   a heap of dict objects).  Variables: 0 = memo (closure cell of memoize, shared with wrapper), 1 = key, 2 = result.  Exception classes:')
+    t.append('   1 TypeError 2 KeyError 3 AttributeError. *)')
+    t.append('Inductive mexpr :=')
+    t.append('| MVar (x : nat)')
+    t.append('| MNewDict                        (* {} : a NEW dict object *)')
+    t.append('| MMakeKey                        (* _make_key(args, kwargs) *)')
+    t.append('| MCallFunc                       (* func( *args, **kwargs) *)')
+    t.append('| MGetItem (d k : mexpr)          (* d[k] *)')
+    t.append('| MLenGe (d : mexpr) (n : nat)    (* len(d) >= n *)')
+    t.append('| MFuncCache.                     (* func.__memoize_cache (clear_cache) *)')
+    t.append('Inductive mstmt :=')
+    t.append('| MSAssign (x : nat) (e : mexpr)')
+    t.append('| MSSetItem (d k v : mexpr)       (* d[k] = v *)')
+    t.append('| MSReturn (e : mexpr)')
+    t.append('| MSTry (body : list mstmt) (handlers : list mstmt)')
+    t.append('| MSHandler (c : nat) (body : list mstmt)')
+    t.append('| MSIf (c : mexpr) (a b : list mstmt)')
+    t.append('| MSClear (d : mexpr)             (* d.clear() *)')
+    t.append('| MSSetCache (e : mexpr)          (* wrapper.__memoize_cache = e *)')
+    t.append('| MSPass.')
+    t.append('(* memoize: the statements before `def wrapper`, the body of wrapper, the statements between it and `return wrapper` *)')
+    t.append('Definition memoize_pre : list mstmt := %s.' % pre)
+    t.append('Definition memoize_wrapper : list mstmt :=\n  %s.' % wbody)
+    t.append('Definition memoize_post : list mstmt := %s.' % post)
+    t.append('Definition clear_cache_body : list mstmt := %s.' % clear)
+    t.append('(* clear_mask_caches: 1 = exactly the work-list walk `classes = [SubsetState]; while classes: cls = classes.pop(); clear_cache(cls.__dict__.get(\'to_mask\'));')
+    t.append('   classes.extend(cls.__subclasses__())` with clear_cache imported from glue.core.decorators, i.e. clear_cache on every class\'s own to_mask; 0 = anything else *)')
+    t.append('Definition clear_mask_caches_walk : nat := %d.' % walk)
     text = '\n'.join(t) + '\n'
     if not os.path.exists(out_path) or open(out_path).read() != text:
         tmp = out_path + '.tmp'
